@@ -817,6 +817,10 @@ func gen(r *hx.Rng, n int, tier string) []string {
 	// a handle holding a key its serializer refuses: every writer must fail or write something readable
 	add("U|jwthmac|0")
 	add("U|jwthmac|1")
+	for _, k := range []string{"aesgcm-16-16", "aesgcm-12-12", "aesgcm-8-14", "aesgcm-12-16"} {
+		add("U|" + k + "|0")
+		add("U|" + k + "|1")
+	}
 	// the JSON text layer: every fault family, text manipulation and accepted spelling (jsontext.go)
 	for _, l := range directedJSONText() {
 		add(l)
